@@ -40,6 +40,8 @@ func init() {
 				Run: ruleC19f},
 			{ID: "C19.h", Template: "T-FRESH", Required: true, Run: rulePooledBytesClean,
 				Doc: "No request leaves bytes behind for the next: pooled byte containers are emptied before Put or after Get (same obligations as C16.g)."},
+			{ID: "C19.k", Template: "T-FRESH", Required: true, Run: ruleC04b,
+				Doc: "The path parameter map a request gets is made for that request (same obligations as C04.b): a package-level 'empty' map handed to every request of a parameter-less route carries what one request's filter or function wrote into it over to the next."},
 			{ID: "C19.j", Template: "T-GUARD", Required: true, Run: ruleTraceLoggerGuarded,
 				Doc: "'Whether or not trace logging is enabled': every call through the package-level traceLogger is controlled by the trace flag. TraceLogger(nil) stores a nil logger and switches the flag off; an unguarded call is then a call on a nil interface (and with the default logger it logs although tracing is off)."},
 			{ID: "C19.i", Template: "T-FRESH", Required: true, Run: rulePooledStructsReset,
